@@ -373,6 +373,8 @@ PALETTE = [
     ('bytes[3]', lambda n: [Member(n, 'byte', FIXED, 3)]),
     ('bytes<5>', lambda n: [Member(n, 'byte', LIMITED, 5)]),
     ('u16<@>', lambda n: [Member('n_' + n, 'u8'), Member(n, 'u16', EXT, sizer='n_' + n)]),
+    ('u32<@64>', lambda n: [Member('n_' + n, 'u64'), Member(n, 'u32', EXT, sizer='n_' + n)]),      # 64-bit counter
+    ('Fx2<@i16>', lambda n: [Member('n_' + n, 'i16'), Member(n, 'Fx2', EXT, sizer='n_' + n)]),     # signed counter
     ('Un12', lambda n: [Member(n, 'Un12')]),
     ('TDy4<>', lambda n: [Member(n, 'TDy4', DYNAMIC)]),
     ('TFx2*', lambda n: [Member(n, 'TFx2', OPTIONAL)]),
